@@ -7,6 +7,7 @@ completed-copies counter and a counter stack (never imports emmet), compared thr
 """
 import itertools
 from emmet import expand
+from mc import session
 from mc.lexers import lex_html
 
 ID = 'C02'
@@ -199,6 +200,7 @@ def observe(abbr, limit, jsx=False):
         cfg['syntax'] = 'jsx'
     if limit is not None:
         cfg['maxRepeat'] = limit
+    cfg['cache'] = session.CACHE        # the shard's calls share one cache dict (mc/session.py)
     ev = lex_html(expand(abbr, cfg))
     res = []
     j = 0
